@@ -355,8 +355,8 @@ class Closure:
 class LazyObj:
     """a struct (or a reference to one) whose fields become symbolic values on first access; field types come from the
     projection text of the MIR itself (`((*_1).3: Option<&[u8]>)`), so no declaration of the struct is needed"""
-    __slots__ = ('name', 'fields', 'ty')
-    def __init__(s, name, ty='', fields=None): s.name = name; s.ty = ty; s.fields = dict(fields or {})
+    __slots__ = ('name', 'fields', 'ty', 'ftys')
+    def __init__(s, name, ty='', fields=None, ftys=None): s.name = name; s.ty = ty; s.fields = dict(fields or {}); s.ftys = dict(ftys or {})
     def __repr__(s): return f'LazyObj({s.name}:{s.ty})'
 
 
@@ -390,7 +390,7 @@ def ite_val(c, a, b):
         return Enum(If(c, a.disc(), b.disc()), pl, a.ty)
     if isinstance(a, Opaque) and isinstance(b, Opaque): return a
     if isinstance(a, LazyObj) and isinstance(b, LazyObj):
-        return LazyObj(a.name, a.ty, {k: ite_val(c, a.fields.get(k), b.fields.get(k)) for k in set(a.fields) | set(b.fields)})
+        return LazyObj(a.name, a.ty, {k: ite_val(c, a.fields.get(k), b.fields.get(k)) for k in set(a.fields) | set(b.fields)}, {**a.ftys, **b.ftys})
     if isinstance(a, Slice) and isinstance(b, Slice): return Slice(If(c, a.base, b.base), If(c, a.len, b.len), a.ety)
     if isinstance(a, Ptr) and isinstance(b, Ptr): return Ptr(If(c, a.addr, b.addr), a.ty)
     if a is None: return b
@@ -420,7 +420,7 @@ class State:
             if isinstance(v, Enum): return Enum(v.d, {k: [fix(x) for x in p] for k, p in v.payload.items()}, v.ty)
             if isinstance(v, Closure): return Closure(v.cid, [fix(x) for x in v.f])
             if isinstance(v, Opaque) and v.args: return Opaque(v.tag, tuple(fix(x) for x in v.args))
-            if isinstance(v, LazyObj): return LazyObj(v.name, v.ty, {k: fix(x) for k, x in v.fields.items()})
+            if isinstance(v, LazyObj): return LazyObj(v.name, v.ty, {k: fix(x) for k, x in v.fields.items()}, v.ftys)
             return v
         for f in s.frames:
             g = mp[id(f)]
@@ -469,7 +469,10 @@ class Engine:
         if is_false(c): return False
         self.stats['sat_calls'] += 1
         self._sync(st.pc)
-        self.solver.push(); self.solver.add(c); r = self.solver.check(); self.solver.pop()
+        self.solver.push(); self.solver.add(c)
+        lr = self.ctx.get('lazy_ranges')
+        if lr: self.solver.add(*lr)            # discriminants of lazily materialised Option/enum fields are in range
+        r = self.solver.check(); self.solver.pop()
         if r == unknown: self.stats['unknown'] += 1
         return r != unsat
     def add_stub(self, pattern, handler):
@@ -615,6 +618,7 @@ class Engine:
                     v = v.f[p[1]]
                 elif isinstance(v, LazyObj):
                     if p[1] not in v.fields: v.fields[p[1]] = self.fresh_lazy(p[2], f'{v.name}.{p[1]}')
+                    v.ftys[p[1]] = p[2]
                     v = v.fields[p[1]]
                 elif isinstance(v, Opaque): v = Opaque('field', (v, p[1]))
                 elif isinstance(v, Slice) and p[1] == 0: v = Ptr(v.base, v.ety)
@@ -655,7 +659,7 @@ class Engine:
                     f[p[1]] = upd(f[p[1]], proj[1:]); return Agg(f, v.ty, v.kind)
                 if isinstance(v, LazyObj):
                     if p[1] not in v.fields and len(proj) > 1: v.fields[p[1]] = self.fresh_lazy(p[2], f'{v.name}.{p[1]}')
-                    nf = dict(v.fields); nf[p[1]] = upd(nf.get(p[1]), proj[1:]); return LazyObj(v.name, v.ty, nf)
+                    nf = dict(v.fields); nf[p[1]] = upd(nf.get(p[1]), proj[1:]); nt = dict(v.ftys); nt[p[1]] = p[2]; return LazyObj(v.name, v.ty, nf, nt)
                 if v is None:
                     f = [None] * (p[1] + 1); f[p[1]] = upd(None, proj[1:]); return Agg(f)
                 raise Unsupported(f'put field of {v}')
